@@ -1007,8 +1007,10 @@ func rulePoolRetain(c *Ctx, rule string) {
 					if _, ok := poolNonRetaining[name]; ok {
 						continue
 					}
-					// a first-party callee that only reads the argument
-					if f := cc.StaticCallee(); f != nil && FirstParty(f) && len(f.Blocks) > 0 {
+					// a first-party callee that only reads the argument (a goroutine or a deferred call
+					// runs after the release whatever it does with it)
+					_, plainCall := in.(*ssa.Call)
+					if f := cc.StaticCallee(); plainCall && f != nil && FirstParty(f) && len(f.Blocks) > 0 {
 						keeps := false
 						for i, a := range cc.Args {
 							if alias[a] && i < len(f.Params) && paramMayBeRetained(f, i, 0) {
